@@ -31,18 +31,28 @@ from .. import core, pyz
 LEVEL = "model_checking"
 
 HEADER = (
+    "import enum\n"
     "import sys\n"
     "from typing import Any, Union\n"
     "from typing_extensions import Literal\n"
     "from pyanalyze.extensions import evaluated, is_keyword, is_of_type, is_positional, is_provided, show_error\n"
+    "class E(enum.IntEnum):\n"
+    "    A = 1\n"
 )
 PARAM_ANNOTATION = "Union[int, str, None]"
+# LT / LE: Literal[True] and a member of an IntEnum with value 1 -- both == 1 in Python, distinct as types
 ATOM_SRC = {
     "L1": "Literal[1]", "L2": "Literal[2]", "Lx": 'Literal["x"]', "Ly": 'Literal["y"]',
-    "None": "None", "int": "int", "str": "str", "Any": "Any",
+    "None": "None", "int": "int", "str": "str", "Any": "Any", "LT": "Literal[True]", "LE": "Literal[E.A]",
 }
-LIT_SRC = {"L1": "1", "L2": "2", "Lx": '"x"', "Ly": '"y"', "None": "None"}
-OP_SRC = {"eq": "==", "ne": "!=", "is": "is", "isnot": "is not", "ge": ">=", "lt": "<"}
+LIT_SRC = {"L1": "1", "L2": "2", "Lx": '"x"', "Ly": '"y"', "None": "None", "LT": "True", "LE": "E.A", "X": "int()"}
+OP_SRC = {"eq": "==", "ne": "!=", "is": "is", "isnot": "is not", "ge": ">=", "lt": "<", "le": "<=", "gt": ">",
+          "in": "in", "notin": "not in"}
+# TypeEval!StrTab: the strings of typed tuple elements, in Python's string order
+STR_TAB = ["3", "alpha", "beta", "candidate", "final", "x"]
+assert STR_TAB == sorted(STR_TAB)
+ENV_KINDS = ("ver", "veri", "plat", "platin", "platsw")
+BARE_SRC = {"a": "a", "True": "True", "plat": "sys.platform"}
 KIND_SRC = {"prov": "is_provided", "pos": "is_positional", "kw": "is_keyword"}
 DEFAULT_SRC = {"a": "1", "b": '"x"'}
 
@@ -65,11 +75,27 @@ def cond_src(c: dict) -> str:
     if k == "cmp":
         return f"{c['v']} {OP_SRC[c['op']]} {LIT_SRC[c['lit']]}"
     if k == "ver":
-        tup = c["tup"]
-        t = "(" + ", ".join(str(x) for x in tup) + ("," if len(tup) == 1 else "") + ")"
+        tup = [elem_src(x) for x in c["tup"]]
+        t = tup[0] if c["sc"] else "(" + ", ".join(tup) + ("," if len(tup) == 1 else "") + ")"
         return f"sys.version_info {OP_SRC[c['op']]} {t}"
+    if k == "veri":
+        return f"sys.version_info[{c['i']}] {OP_SRC[c['op']]} {c['n']}"
     if k == "plat":
         return f'sys.platform {OP_SRC[c["op"]]} "{c["name"]}"'
+    if k == "platin":
+        names = [f'"{n}"' for n in c["names"]]
+        return f"sys.platform {OP_SRC[c['op']]} ({', '.join(names)}{',' if len(names) == 1 else ''})"
+    if k == "platsw":
+        return f'sys.platform.startswith("{c["name"]}")'
+    if k == "cmpin":
+        lits = [LIT_SRC[x] for x in c["lits"]]
+        return f"{c['v']} {OP_SRC[c['op']]} ({', '.join(lits)}{',' if len(lits) == 1 else ''})"
+    if k == "chain":
+        return "sys.version_info >= (3,) >= (3,)" if c["w"] == "ver" else f"{c['v']} == 1 == 1"
+    if k == "cmprev":
+        return f"{LIT_SRC[c['lit']]} == {c['v']}"
+    if k == "bare":
+        return BARE_SRC[c["w"]]
     if k == "not":
         return f"not ({cond_src(c['c'])})"
     if k in ("and", "or"):
@@ -77,10 +103,45 @@ def cond_src(c: dict) -> str:
     raise core.MachineryError(f"cannot render condition {c!r}")
 
 
-def env_atoms(c: dict) -> list[dict]:
+def elem_src(e: dict) -> str:
+    k = e["k"]
+    if k == "i":
+        return str(e["n"])
+    if k == "s":
+        return '"' + STR_TAB[e["n"] - 1] + '"'
+    if k == "n":
+        return "None"
+    if k == "x":
+        return "int()"
+    raise core.MachineryError(f"cannot render tuple element {e!r}")
+
+
+def elem_of(v: Any) -> dict:
+    if isinstance(v, bool):
+        raise core.MachineryError(f"cannot encode {v!r}")
+    if isinstance(v, int):
+        return {"k": "i", "n": v}
+    if isinstance(v, str) and v in STR_TAB:
+        return {"k": "s", "n": STR_TAB.index(v) + 1}
+    raise core.MachineryError(f"cannot encode the element {v!r} of sys.version_info (TypeEval!StrTab)")
+
+
+def all_atoms(c: dict) -> list[dict]:
     k = c["k"]
-    if k in ("ver", "plat"):
-        return [c]
+    if k == "none":
+        return []
+    if k == "not":
+        return all_atoms(c["c"])
+    if k in ("and", "or"):
+        return [a for x in c["cs"] for a in all_atoms(x)]
+    return [c]
+
+
+def env_atoms(c: dict) -> list[dict]:
+    """The version / platform checks that are Python expressions with a value of their own."""
+    k = c["k"]
+    if k in ENV_KINDS:
+        return [] if k == "ver" and any(e["k"] == "x" for e in c["tup"]) else [c]
     if k == "not":
         return env_atoms(c["c"])
     if k in ("and", "or"):
@@ -155,29 +216,53 @@ def call_src(fname: str, case: dict) -> str:
     return f"{fname}({', '.join(args)})"
 
 
-def render_module(cases: list[dict]) -> tuple[str, dict[int, int]]:
-    """One module for a chunk of cases: the distinct evaluator functions, then one function whose
-    parameters carry the argument types and whose body is one call per case.
-    Returns (source, {lineno of the call: index in cases})."""
+def twin_atom(case: dict) -> Optional[dict]:
+    """The condition of a version / platform probe (TypeEval!ProbeBody2), which is also placed in an
+    ordinary function: the checker must not raise on it there either."""
+    if not _is_probe2(case):
+        return None
+    c = case["lines"][0]["c"]
+    atom = c["c"] if c["k"] == "not" else c
+    return c if atom["k"] in ENV_KINDS else None
+
+
+def render_module(cases: list[dict]) -> tuple[str, dict[int, int], dict[str, tuple[int, int]], dict[str, tuple[int, int]]]:
+    """One module for a chunk of cases: the distinct evaluator functions (each probe of a version /
+    platform check followed by an ordinary function with the same condition), then one function
+    whose parameters carry the argument types and whose body is one call per case.
+    Returns (source, {lineno of the call: index in cases}, {function key: (first, last) line of the
+    evaluator's definition}, {function key: (first, last) line of the ordinary twin})."""
     out = [HEADER]
+    nlines = HEADER.count("\n")
     funcs: dict[str, str] = {}
     types: dict[str, str] = {}
+    def_lines: dict[str, tuple[int, int]] = {}
+    twin_lines: dict[str, tuple[int, int]] = {}
     for case in cases:
         key = _fkey(case)
         if key not in funcs:
             funcs[key] = f"f{len(funcs)}"
-            out.append(function_src(funcs[key], case))
+            src = function_src(funcs[key], case)
+            def_lines[key] = (nlines + 1, nlines + src.count("\n"))
+            nlines += src.count("\n")
+            out.append(src)
+            cond = twin_atom(case)
+            if cond is not None:
+                src = f"def t_{funcs[key]}():\n    if {cond_src(cond)}:\n        pass\n"
+                twin_lines[key] = (nlines + 1, nlines + 3)
+                nlines += 3
+                out.append(src)
         for t in (case["ta"], case["tb"]):
             types.setdefault(var_name(t), type_src(t))
     params = [f"{name}: {src}" for name, src in types.items()] + ["args", "kwargs"]
     out.append(f"def caller({', '.join(params)}):\n")
-    nlines = "".join(out).count("\n")
+    nlines += 1
     call_lines: dict[int, int] = {}
     for j, case in enumerate(cases):
         nlines += 1
         call_lines[nlines] = j
         out.append(f"    {call_src(funcs[_fkey(case)], case)}\n")
-    return "".join(out), call_lines
+    return "".join(out), call_lines, def_lines, twin_lines
 
 
 def _fkey(case: dict) -> str:
@@ -269,15 +354,15 @@ _modno = [0]
 def observe_chunk(cases: list[dict]) -> list[dict]:
     """Runs the real visitor on one module holding the chunk; one `real` record per case."""
     install_recorder()
-    code, call_lines = render_module(cases)
+    code, call_lines, def_lines, twin_lines = render_module(cases)
     _modno[0] += 1
     name = f"c20mod_{_modno[0]}_{id(cases) & 0xFFFF}"
     fname = name + ".py"
     linecache.cache[fname] = (len(code), None, code.splitlines(True), fname)
     _records.clear()
     reals: list[dict] = [
-        {"status": "unexpected", "types": [], "etypes": [], "errs": [], "diag": [], "pos": {"a": "?", "b": "?"},
-         "note": "call not seen"}
+        {"status": "unexpected", "rej": [], "twin": "none", "types": [], "etypes": [], "errs": [], "diag": [],
+         "pos": {"a": "?", "b": "?"}, "note": "call not seen"}
         for _ in cases
     ]
     try:
@@ -298,16 +383,44 @@ def observe_chunk(cases: list[dict]) -> list[dict]:
                 inferred[node.lineno] = getattr(node, "inferred_value", None)
     by_line: dict[int, list[dict]] = {}
     stray = []
+    owner: dict[int, tuple[str, str]] = {}
+    for key, (lo, hi) in def_lines.items():
+        for ln in range(lo, hi + 1):
+            owner[ln] = ("def", key)
+    for key, (lo, hi) in twin_lines.items():
+        for ln in range(lo, hi + 1):
+            owner[ln] = ("twin", key)
+    rejected: dict[str, list[str]] = {}   # diagnostics inside the definition of an evaluator
+    def_raised: dict[str, str] = {}       # internal_error inside the definition
+    twin_raised: set[str] = set()
     for f in fails:
         ln = f.get("lineno")
+        code_name = getattr(f.get("code"), "name", None)
         if ln in call_lines:
             by_line.setdefault(ln, []).append(f)
+        elif ln in owner:
+            what, key = owner[ln]
+            if what == "twin":  # an ordinary function: only "the checker raised" is observed
+                if code_name == "internal_error":
+                    twin_raised.add(key)
+            elif code_name == "internal_error":
+                def_raised[key] = str(f.get("description", ""))[-200:]
+            else:
+                text = re.sub(r"[^A-Za-z0-9_ .,:()\[\]=<>!'-]", "?", str(f.get("description", "")))[:100]
+                rejected.setdefault(key, []).append(f"{code_name}: {text}")
         else:
             stray.append(f)
     for ln, j in call_lines.items():
         r = reals[j]
         rec = _records.get(ln)
         diag, notes, status = [], [], "ok"
+        key = _fkey(cases[j])
+        r["rej"] = rejected.get(key, [])
+        if key in twin_lines:
+            r["twin"] = "exception" if key in twin_raised else "ok"
+        if key in def_raised:
+            status = "exception"
+            notes.append("at the definition: " + def_raised[key])
         for f in by_line.get(ln, []):
             code_name = getattr(f.get("code"), "name", None)
             desc = str(f.get("description", ""))
@@ -319,7 +432,9 @@ def observe_chunk(cases: list[dict]) -> list[dict]:
             else:
                 status = "unexpected" if status == "ok" else status
                 notes.append(f"{code_name}: {desc[:200]}")
-        if rec is None or ln not in inferred or inferred[ln] is None:
+        if status == "exception":
+            pass  # the checker raised: nothing else is observed
+        elif rec is None or ln not in inferred or inferred[ln] is None:
             if status == "ok":
                 status = "unexpected"
             notes.append("evaluator not reached" if rec is None else "no inferred value")
@@ -339,15 +454,20 @@ def observe_chunk(cases: list[dict]) -> list[dict]:
 
 
 def real_env() -> dict:
-    return {"ver": list(sys.version_info[:3]), "plat": sys.platform}
+    return {"ver": [elem_of(v) for v in tuple(sys.version_info)], "plat": sys.platform}
 
 
 def cpython_checks(case: dict) -> list[dict]:
-    """What real CPython answers for every version / platform check of the body (oracle validation)."""
+    """What real CPython answers for every version / platform check of the body (oracle validation):
+    "T" / "F", or "err" when the expression raises TypeError."""
     out = []
     for ln in case["lines"]:
         for atom in env_atoms(ln["c"]):
-            out.append({"a": atom, "v": bool(eval(cond_src(atom), {"sys": sys}))})
+            try:
+                v = "T" if eval(cond_src(atom), {"sys": sys}) else "F"
+            except TypeError:
+                v = "err"
+            out.append({"a": atom, "v": v})
     return out
 
 
@@ -375,10 +495,35 @@ def observe(cases: list[dict], chunk: int = 400) -> list[dict]:
 # --------------------------------------------------------------------------- adjudication
 
 
+_MODEL_ENV_LINE = 'ModelEnv == [ver |-> <<EI(3), EI(12), EI(1), ES(5), EI(0)>>, plat |-> "linux"]'
+
+
+def _model_env_files() -> dict[str, str]:
+    """TypeEval.tla with ModelEnv replaced by the running interpreter's (version, platform), so that
+    the version tuples TLC enumerates are built around the version the real code runs on.  Nothing to
+    do on CPython 3.12.1 final / linux, which the module spells out."""
+    env = real_env()
+    elems = ", ".join(("EI(%d)" if e["k"] == "i" else "ES(%d)") % e["n"] for e in env["ver"])
+    line = f'ModelEnv == [ver |-> <<{elems}>>, plat |-> "{env["plat"]}"]'
+    if line == _MODEL_ENV_LINE:
+        return {}
+    text = (core.SPEC / "TypeEval.tla").read_text()
+    if text.count(_MODEL_ENV_LINE) != 1:
+        raise core.MachineryError("TypeEval.tla: the ModelEnv definition is not the one the driver knows")
+    return {"TypeEval.tla": text.replace(_MODEL_ENV_LINE, line)}
+
+
 def _cfg(name: str, seed: Optional[int] = None) -> Optional[dict[str, str]]:
     """The cfg with run-dependent constants filled in: EmitRes (which residue class of body hashes is
     emitted for replay) from the seed, and -- for experiments with proposed repairs applied to a copy
-    of the repository (VERIF_REPO) -- Fixed from VERIF_C20_FIXED=boolop,exact,ell."""
+    of the repository (VERIF_REPO) -- Fixed from VERIF_C20_FIXED=boolop,exact,ell; plus TypeEval.tla
+    with the running interpreter as ModelEnv when it is not the one written in the module."""
+    files = _cfg_only(name, seed) or {}
+    files.update(_model_env_files())
+    return files or None
+
+
+def _cfg_only(name: str, seed: Optional[int] = None) -> Optional[dict[str, str]]:
     text = (core.SPEC / "mc" / name).read_text()
     orig = text
     fixed = [x for x in os.environ.get("VERIF_C20_FIXED", "").split(",") if x]
@@ -390,9 +535,21 @@ def _cfg(name: str, seed: Optional[int] = None) -> Optional[dict[str, str]]:
     return {name: text} if text != orig else None
 
 
+def _family_atom(a: dict) -> bool:
+    """A member of the condition families other than the everyday `sys.version_info >= / < (M, m)`,
+    `sys.platform == / !=`, `arg == / != / is / is not 1 | "x" | None`."""
+    k = a["k"]
+    if k == "ver":
+        return a["sc"] or a["op"] not in ("ge", "lt") or len(a["tup"]) != 2 or any(e["k"] != "i" for e in a["tup"])
+    if k == "cmp":
+        return a["op"] in ("lt", "ge") or a["lit"] in ("LT", "LE", "X")
+    return k in ("veri", "platin", "platsw", "cmpin", "chain", "cmprev", "bare")
+
+
 def _nontrivial(case: dict) -> bool:
     return (len(case["ta"]) > 1 or len(case["tb"]) > 1 or "Any" in case["ta"] + case["tb"]
-            or case["call"]["star"] or case["call"]["dstar"])
+            or case["call"]["star"] or case["call"]["dstar"]
+            or any(_family_atom(a) for ln in case["lines"] for a in all_atoms(ln["c"])))
 
 
 def adjudicate(obs: list[dict]) -> tuple[dict, dict]:
@@ -440,8 +597,15 @@ def judge(check: core.Check, cases: list[dict], label: str) -> None:
 ACTIONS = ["AddLeaf", "AddElse", "AddIf", "StartProbe", "EndBody", "ChooseSig", "ChooseCall", "ChooseTypes"]
 
 
+def _is_probe2(case: dict) -> bool:
+    ls = case["lines"]
+    return len(ls) == 6 and [x["k"] for x in ls] == ["if", "err", "ret", "else", "err", "ret"] and [x["ind"] for x in ls] == [0, 1, 1, 0, 1, 1]
+
+
 def _is_probe(case: dict) -> bool:
     ls = case["lines"]
+    if _is_probe2(case) and all_atoms(ls[0]["c"])[0]["k"] not in ("kind", "oft"):
+        return True
     return len(ls) == 3 and ls[0]["k"] == "if" and ls[1]["k"] == "ret" and ls[2]["k"] == "ret" and ls[2]["ind"] == 0 and (
         ls[0]["c"]["k"] in ("kind", "ver", "plat") or (ls[0]["c"]["k"] == "not" and ls[0]["c"]["c"]["k"] in ("kind", "ver", "plat"))
     )
@@ -460,14 +624,31 @@ def run(check: core.Check) -> None:
         "primitives (the documentation does not define their type)",
         "Evaluator.evaluate and Signature.check_call_with_bound_args are wrapped in the harness process to record "
         "positions, returned value and every UserRaisedError (the visitor de-duplicates diagnostics per call node)",
+        "version / platform checks mean what the expression means in Python on the running interpreter "
+        f"({'.'.join(map(str, sys.version_info[:3]))} {sys.version_info[3]} / {sys.platform}); TypeEval!PyEnvEval (tuple "
+        "comparison element by element with TypeError for int against str / None, strings ordered as in "
+        "TypeEval!StrTab) is checked against real CPython for every recorded check (verdict oracle:sys-check)",
+        "a condition that is not one of the forms listed under 'Conditions in if statements may contain' must be "
+        "reported inside the evaluator's definition and must never make the checker raise; what a call to a rejected "
+        "evaluator returns is not specified (compared with the model only, as drift); forms the text leaves open "
+        "(sys.platform in (..), .startswith, ill-typed version tuples that Python still compares) may be rejected, and "
+        "mean what Python says if accepted",
     ]
     # quick3: the two-union-argument slice (and/or over both parameters + a re-test), replayed in full
     cfgs = ["TypeEval.quick1.cfg", "TypeEval.quick2.cfg", "TypeEval.quick3.cfg"] if quick else [
         "TypeEval.thorough1.cfg", "TypeEval.thorough2.cfg", "TypeEval.thorough3.cfg"]
+    # the condition families (version / platform checks, comparisons): every member as a probe, a core
+    # subset in generated bodies
+    fam_cfgs = [f"TypeEval.cond{i}.cfg" for i in (1, 2, 3, 4)] if quick else [f"TypeEval.condt{i}.cfg" for i in (1, 2, 3, 4)]
     workers = max(4, (core.NCPU - 4) // len(cfgs))
+    cfgs += fam_cfgs
 
     SENS = (("TypeEval.strict1.cfg", "EvalFollowsSpecStrict"), ("TypeEval.strict2.cfg", "OverApproximatesStrict"),
-            ("TypeEval.sens.cfg", "EvalFollowsSpec"))
+            ("TypeEval.sens.cfg", "EvalFollowsSpec"),
+            ("TypeEval.condstrict1.cfg", "StatusFollowsSpecStrict"),
+            ("TypeEval.condsens1.cfg", "EvalFollowsSpec"), ("TypeEval.condsens3.cfg", "EvalFollowsSpec"))
+    if not quick:  # the comparison family's status deviations, and truncation to three elements
+        SENS += (("TypeEval.condstrict2.cfg", "StatusFollowsSpecStrict"), ("TypeEval.condsens2.cfg", "EvalFollowsSpec"))
     num = 60 if quick else 1500  # behaviours; TLC evaluates EmitDone on every successor it generates
 
     def tlc_job(cfg: str) -> core.TLCResult:
@@ -475,6 +656,9 @@ def run(check: core.Check) -> None:
             return core.run_tlc("TypeEval", cfg, coverage=True, workers=2, timeout=3000)
         if cfg in [c for c, _ in SENS]:
             return core.run_tlc("TypeEval", cfg, workers=2, timeout=900, extra_files=_cfg(cfg))
+        if cfg in fam_cfgs:  # small state spaces: few workers, so that the long runs keep theirs
+            return core.run_tlc("TypeEvalEmit", cfg, workers=2 if quick else 5, timeout=3000,
+                                extra_files=_cfg(cfg, check.seed), heap="10g")
         if cfg == "TypeEval.sim.cfg":
             return core.run_tlc("TypeEvalEmit", cfg, workers=1 if quick else 3, simulate=f"num={num}", depth=16,
                                 seed=check.seed + 20, timeout=2400, extra_files=_cfg(cfg))
@@ -484,9 +668,20 @@ def run(check: core.Check) -> None:
     # mutually recursive interpreters; action coverage is therefore taken from a run of the generator
     # without the invariants, and the invariants' antecedent (stage = "done") is exercised once per
     # emitted case.
-    jobs = cfgs + ["TypeEval.cov.cfg"] + [c for c, _ in SENS] + ["TypeEval.sim.cfg"]
-    with ThreadPoolExecutor(len(jobs)) as ex:
-        by_cfg = dict(zip(jobs, ex.map(tlc_job, jobs)))
+    # one thread runs the (short, expected-to-fail) sensitivity configurations one after the other, and
+    # one the two smaller family configurations: fewer JVMs at the same time
+    def chain(names: list[str]) -> list[core.TLCResult]:
+        return [tlc_job(n) for n in names]
+
+    sens_names = [c for c, _ in SENS]
+    chained = fam_cfgs[1::2] if quick else fam_cfgs[0::2]  # the two smaller ones of the tier
+    singles = [c for c in cfgs if c not in chained] + ["TypeEval.cov.cfg", "TypeEval.sim.cfg"]
+    with ThreadPoolExecutor(len(singles) + 2) as ex:
+        f_sens = ex.submit(chain, sens_names)
+        f_fam = ex.submit(chain, chained)
+        by_cfg = dict(zip(singles, ex.map(tlc_job, singles)))
+        by_cfg.update(zip(sens_names, f_sens.result()))
+        by_cfg.update(zip(chained, f_fam.result()))
     results = [by_cfg[c] for c in cfgs] + [by_cfg["TypeEval.cov.cfg"]]
     cov = core.require_ok(results.pop(), "TypeEval generator coverage")
     core.require_coverage(cov, ACTIONS, "TypeEval.cov.cfg")
@@ -494,6 +689,7 @@ def run(check: core.Check) -> None:
     cases: list[dict] = []
     sampled = False
     dense_keys: set[str] = set()
+    fam_keys: set[str] = set()
     for cfg, res in zip(cfgs, results):
         core.require_ok(res, "TypeEval exhaustive " + cfg)
         emitted = core.emitted_json(res)
@@ -504,6 +700,8 @@ def run(check: core.Check) -> None:
         check.add_tlc("exhaustive:" + cfg, res, emitted_cases=len(emitted), emitted_body_fraction=f"1/{mod_}")
         if cfg == "TypeEval.quick3.cfg":
             dense_keys.update(core.canon(c) for c in emitted)
+        if cfg in fam_cfgs:
+            fam_keys.update(core.canon(c) for c in emitted)
         cases += emitted
     uniq = {core.canon(c): c for c in cases}
     cases = list(uniq.values())
@@ -515,14 +713,40 @@ def run(check: core.Check) -> None:
             raise core.MachineryError(f"sensitivity self-test failed: {inv} not violated under {cfg}: {r.error}")
     check.cov["sensitivity"] = (
         "EvalFollowsSpecStrict and OverApproximatesStrict are violated on the model (the named deviations are real); "
-        "with Bug = any_matches (exclude_any ignored in the Impl model) EvalFollowsSpec is violated"
+        "with Bug = any_matches (exclude_any ignored in the Impl model) EvalFollowsSpec is violated; on the condition "
+        "families StatusFollowsSpecStrict is violated (the accept/reject deviations are real), and EvalFollowsSpec is "
+        "violated with Bug = ver2 (and, thorough tier, ver3: sys.version_info truncated to two / three elements before the comparison) "
+        "and Bug = pyeq (literals compared with Python's ==, so that 1, True and an IntEnum member of value 1 coincide)"
     )
     # S->C replay, adjudicated by TLC
     limit = 20000 if quick else 300000
+    fam_limit = 6000 if quick else 150000
     probes = [c for c in cases if _is_probe(c) or core.canon(c) in dense_keys]  # always replayed
     others = [c for c in cases if not (_is_probe(c) or core.canon(c) in dense_keys)]
-    exhaustive = len(cases) - len(dense_keys) <= limit and not sampled
-    if len(cases) - len(dense_keys) > limit:  # sample whole evaluator functions (all their calls), seeded
+    # generated bodies of the condition families: their own replay budget, whole evaluators, seeded
+    fam_bodies = [c for c in others if core.canon(c) in fam_keys]
+    others = [c for c in others if core.canon(c) not in fam_keys]
+    check.cov["family_probe_cases"] = sum(1 for c in probes if _is_probe2(c))
+    check.cov["family_body_cases"] = len(fam_bodies)
+    fam_exhaustive = len(fam_bodies) <= fam_limit
+    if not fam_exhaustive:
+        fgroups: dict[str, list[dict]] = {}
+        for c in fam_bodies:
+            fgroups.setdefault(_fkey(c), []).append(c)
+        fkeys = sorted(fgroups)
+        random.Random(check.seed + 7).shuffle(fkeys)
+        fam_bodies = []
+        for k in fkeys:
+            if len(fam_bodies) >= fam_limit:
+                break
+            fam_bodies += fgroups[k]
+    check.cov["family_body_cases_replayed"] = len(fam_bodies)
+    if not check.cov["family_probe_cases"] or not fam_bodies:
+        raise core.MachineryError("the condition families produced no probe / no body case (vacuous)")
+    probes += fam_bodies
+    cases_n = len(cases) - len(fam_keys)
+    exhaustive = cases_n - len(dense_keys) <= limit and not sampled and fam_exhaustive
+    if cases_n - len(dense_keys) > limit:  # sample whole evaluator functions (all their calls), seeded
         groups: dict[str, list[dict]] = {}
         for c in others:
             groups.setdefault(_fkey(c), []).append(c)
@@ -530,7 +754,7 @@ def run(check: core.Check) -> None:
         rnd.shuffle(keys)
         others = []
         for k in keys:
-            if len(others) + len(probes) - len(dense_keys) >= limit:  # the dense slice is on top of the limit
+            if len(others) + len(probes) - len(dense_keys) - len(fam_bodies) >= limit:  # the dense slice and the families are on top of the limit
                 break
             others += groups[k]
     check.cov["exhaustive"] = exhaustive
@@ -539,8 +763,22 @@ def run(check: core.Check) -> None:
         "cases = states with stage=done of TypeEval.tla (body x signature x call shape x argument types); all probe "
         "cases (every argument-kind primitive under every signature x call shape, every version/platform check) are "
         "replayed, and so is every case of the two-union-argument slice TypeEval.quick3.cfg (quick tier); of the other cases TLC emits all (quick) or the evaluator bodies in one seeded residue class of a "
-        "structural hash (thorough: 1/16, 1/4), which are replayed up to the replay limit; non-trivial = "
-        "a union-typed or Any argument, or a call with *args/**kwargs"
+        "structural hash (thorough: 1/16, 1/4), which are replayed up to the replay limit; "
+        "condition families (TypeEval.cond*.cfg, profiles cenv / ccmp): every member -- sys.version_info <op> rhs for the six "
+        "comparison operators x 36 tuples of length 1..5 built from (major, minor, micro) of the running interpreter +-1, "
+        "release levels beta/final/x and serial 0/1, 8 ill-typed / empty / too long tuples, 4 non-tuple right-hand sides "
+        "(int, str, None, non-literal); sys.version_info[0|1] <op> n; sys.platform ==, !=, in, not in, .startswith; arg <op> "
+        "literal for ==, !=, is, is not, <, >= x literals 1, 'x', None, True, IntEnum member, non-literal; arg [not] in (..), "
+        "chained comparisons, constant == arg, bare expressions -- plain and negated, as a probe `if c: show_error; return / "
+        "else: show_error; return` (comparison probes under 12 argument types incl. Literal[True], Literal[E.A], unions, Any), "
+        "all replayed; plus a core subset of 11 / 7 members combined with not/and/or and an argument comparison in generated "
+        + ("bodies (<= 4 lines with <= 2 single-condition ifs, or <= 3 lines with one two-operand condition; nesting, elif/else, "
+           "fall-through), " if quick else
+           "bodies (<= 5 lines with <= 2 single-condition ifs, or <= 4 lines with <= 2 ifs and <= 3 conditions, two-operand "
+           "and/or; bodies emitted for replay: one seeded residue class of 4 resp. 16), ")
+        + f"TLC-checked in full and replayed up to {fam_limit} cases (whole evaluators, seeded); non-trivial = "
+        "a union-typed or Any argument, a call with *args/**kwargs, or a condition of the families other than the everyday "
+        "forms (>= / < a two-int tuple, platform == / !=, arg ==, !=, is, is not 1 | 'x' | None)"
     )
     judge(check, probes + others, "tlc-exhaustive")
     # beyond the exhaustive bound: random simulation over the full grammar
@@ -552,6 +790,8 @@ def run(check: core.Check) -> None:
         raise core.MachineryError(f"simulation produced only {len(suniq)} distinct cases")
     judge(check, list(suniq.values()), "tlc-simulate")
     selftest_binding(check, cases=probes[:3] + others[:40])
+    fam_probes = [c for c in probes if _is_probe2(c)]
+    selftest_family(check, fam_probes[:: max(1, len(fam_probes) // 150)])
 
 
 def selftest_binding(check: core.Check, cases: Optional[list[dict]] = None) -> None:
@@ -583,6 +823,60 @@ def selftest_binding(check: core.Check, cases: Optional[list[dict]] = None) -> N
         raise core.MachineryError(f"binding self-test failed: {hits} of {len(corrupted)} corrupted observations flagged")
     check.cov["binding_selftest"] = f"{hits} of {len(corrupted)} corrupted observations (type / error / position field) rejected by TLC"
     print(f"C20 binding self-test: {hits}/{len(corrupted)} corrupted observations rejected")
+
+
+def selftest_family(check: core.Check, cases: list[dict]) -> None:
+    """The clauses on accepting / rejecting conditions are not vacuous: corrupt the recorded field each
+    of them reads (and the recorded CPython value the oracle is checked against) and require TLC to
+    answer with exactly that clause."""
+    obs = observe(cases)
+    clean, _ = adjudicate(obs)
+    corrupted, want = [], {}
+
+    def plainly_valid(a: dict) -> bool:  # a condition the specification defines (no "either" form)
+        if a["k"] == "ver":
+            return (not a["sc"] and 1 <= len(a["tup"]) <= 5
+                    and all(e["k"] == ("s" if i == 3 else "i") for i, e in enumerate(a["tup"])))
+        return a["k"] in ("plat", "cmp")
+
+    for o in obs:
+        vs = clean.get(o["tid"], [])
+        if any(not v.startswith("dev:version-check-invalid-rhs") for v in vs) or o["real"]["status"] != "ok":
+            continue  # only observations that are plainly fine (or only carry the ordinary-code class)
+        atom = all_atoms(o["case"]["lines"][0]["c"])[0]
+        for k in [(len(corrupted) + d) % 5 for d in range(5)]:
+            r = dict(o["real"])
+            if k == 0 and r["rej"] and atom["k"] != "platsw":
+                r["rej"], clause = [], "viol:InvalidConditionNotRejected"
+            elif k == 1 and not r["rej"] and not vs and plainly_valid(atom):
+                r["rej"], clause = ["bad_evaluator: made up"], "viol:ValidConditionRejected"
+            elif k == 2:
+                r["status"], clause = "exception", "viol:CheckerRaised"
+            elif k == 3 and r["twin"] == "ok":
+                r["twin"], clause = "exception", "viol:OrdinaryCheckRaised"
+            elif k == 4 and o["cpy"]:
+                cp = [dict(x) for x in o["cpy"]]
+                cp[0]["v"] = {"T": "F", "F": "err", "err": "T"}[cp[0]["v"]]
+                corrupted.append({**o, "cpy": cp})
+                want[o["tid"]] = "oracle:sys-check"
+                break
+            else:
+                continue
+            corrupted.append({**o, "real": r})
+            want[o["tid"]] = clause
+            break
+    verdicts, _ = adjudicate(corrupted)
+    hits = {c: 0 for c in set(want.values())}
+    for tid, clause in want.items():
+        if clause in verdicts.get(tid, []):
+            hits[clause] += 1
+    total = {c: sum(1 for v in want.values() if v == c) for c in hits}
+    need = {"viol:InvalidConditionNotRejected", "viol:ValidConditionRejected", "viol:CheckerRaised", "viol:OrdinaryCheckRaised",
+            "oracle:sys-check"}
+    if set(hits) != need or any(hits[c] != total[c] for c in hits):
+        raise core.MachineryError(f"family self-test failed: flagged {hits} of {total} (clauses needed: {sorted(need)})")
+    check.cov["family_selftest"] = "; ".join(f"{c}: {hits[c]}/{total[c]}" for c in sorted(hits)) + " corrupted observations flagged by TLC"
+    print("C20 family self-test: " + check.cov["family_selftest"])
 
 
 def replay(check: core.Check, witness: dict) -> None:
